@@ -132,6 +132,8 @@ def edit_tokens(ed):
         return ["upsert"] + unit_tokens(ed["unit"])
     if ed["op"] == "addwavs":
         return ["addwavs", str(len(ed["paths"]))] + [hx(p) for p in ed["paths"]]
+    if ed["op"] == "setuprp":
+        return ["setuprp", str(len(ed["cuwps"]))] + [x for c in ed["cuwps"] for x in val_tokens(c)[1:]]
     if ed["op"] == "reload":
         return ["reload"]
     raise ValueError(ed["op"])
@@ -282,6 +284,10 @@ def real_run(data, history, classes):
                 if sec is None:
                     raise ValueError("no WAV")
                 rich = RichChkEditor().replace_chk_section(RichWavEditor().add_wav_files([s2py(p) for p in ed["paths"]], sec), rich)
+            elif ed["op"] == "setuprp":
+                from richchk.model.richchk.uprp.rich_uprp_section import RichUprpSection
+
+                rich = RichChkEditor().replace_chk_section(RichUprpSection(_cuwp_slots=[real.val(c, None) for c in ed["cuwps"]]), rich)
             elif ed["op"] == "reload":
                 rich = RichChkIo().decode_chk(ChkIo().decode_chk_binary_data(ChkIo().encode_chk_to_bytes(RichChkIo().encode_chk(rich))))
         out = ChkIo().encode_chk_to_bytes(RichChkIo().encode_chk(rich))
@@ -815,6 +821,11 @@ def special_histories(author, rng):
         e["args"] = [(a, (sw if v["k"] == "sw" else v)) for a, v in e["args"]]
         t["acts"].append(e)
     out.append(("many new switches", [{"op": "addtrigs", "trigs": [t]}], "multi", False))
+    # the same trigger added three times (hyper triggers): all three must be in the file
+    t = author.trigger(nc=1, na=3, raw_p=0)
+    out.append(("three identical triggers in one call", [{"op": "addtrigs", "trigs": [t, t, t]}], "single", False))
+    t2 = author.trigger(nc=1, na=2, raw_p=0)
+    out.append(("a trigger added again after save and reload", [{"op": "addtrigs", "trigs": [t2]}, {"op": "reload"}, {"op": "addtrigs", "trigs": [t2, t2]}], "single", False))
     # unit-property sets that differ from one another (and from a stored one) in exactly one field
     pool = author._existing_cuwps()
     src = dict(rng.choice(pool)) if pool and len(pool) < 50 else dict(k="cuwp", hp=100, sp=100, ep=100, res=0, hangar=2, flags=[False] * 5, unk=False, vs=[True] * 5 + [False], vu=[True] * 6 + [False], padding=0, idx=None)
@@ -869,6 +880,8 @@ def describe(sc):
             ops.append("upsert(unit %d)" % ed["unit"]["unit"])
         elif ed["op"] == "addwavs":
             ops.append("addwavs(%d)" % len(ed["paths"]))
+        elif ed["op"] == "setuprp":
+            ops.append("setuprp(%d slots, indices %s)" % (len(ed["cuwps"]), [c["idx"] for c in ed["cuwps"]][-3:]))
         else:
             ops.append("reload")
     return " ; ".join(ops)
@@ -914,6 +927,17 @@ def degenerate_histories(author, rng):
         e["args"] = [(a, (cu if v["k"] == "cuwp" else v)) for a, v in e["args"]]
         many.append(e)
     out.append(("70 distinct new unit-property sets", [{"op": "addtrigs", "trigs": [{"conds": [], "acts": many[:60], "players": [0]}, {"conds": [], "acts": many[60:], "players": [0]}]}], "multi"))
+    # a hand-built unit-property section holding a slot whose index is outside 1..64, referenced through an
+    # equal index-less set: the reference must not be written as a slot that does not exist
+    stored = [Obj(**c) for c in author._existing_cuwps()][:5]
+    for bad in (65, 200, 0):
+        odd = Obj(k="cuwp", hp=77, sp=1, ep=2, res=12345 + bad, hangar=0, flags=[False] * 5, unk=False, vs=[True] * 5 + [False], vu=[True] * 6 + [False], padding=0, idx=bad)
+        same = Obj(**{k: (list(v) if isinstance(v, list) else v) for k, v in odd.items() if k != "uid"})
+        same["idx"] = None
+        e = author.entry("a", 11)
+        e["args"] = [(a, (same if v["k"] == "cuwp" else v)) for a, v in e["args"]]
+        out.append(("hand-built UPRP section with a slot at index %d, referenced by an equal index-less set" % bad,
+                    [{"op": "setuprp", "cuwps": stored + [odd]}, {"op": "addtrigs", "trigs": [{"conds": [], "acts": [e], "players": [0]}]}]))
     # non-7-bit authored text
     t = author.trigger(nc=0, na=0)
     t["acts"] = [{"k": "rich", "id": 9, "args": [("_text", Obj(k="str", s=b"caf\xe9"))], "flags": [False] * 5}]
